@@ -10,6 +10,18 @@ PROP_MODULES = ["HvsrVerif.Props.C06"]
 BRIDGE_MODULES = ["HvsrVerif.Bridge.C06"]
 
 
+def gen_scatter_case(rng, oid):
+    """small n, many iterations, widely scattered peaks with removals on both sides: the regime in which a rejected window
+    could fall back inside later (narrower or shifted) bounds -- it must stay rejected"""
+    freq = hvgen.gen_freq(rng, int(rng.integers(60, 120)))
+    nw = int(rng.integers(8, 16))
+    rows = np.array([hvgen.gen_curve(rng, freq, "bump", f0=float(np.exp(rng.uniform(np.log(freq[3]), np.log(freq[-4]))))) for _ in range(nw)])
+    m = Mirror.trad(oid, freq, rows)
+    par = dict(n=float(rng.choice([0.9, 1.0, 1.1, 1.2, 1.3])), maxit=50, dfn=str(rng.choice(hvgen.DISTS + ["log-normal"])),
+               dmc=str(rng.choice(hvgen.DISTS + ["log-normal"])), range=(None, None))
+    return m, par
+
+
 def gen_fdwra_case(rng, oid, kind):
     freq = hvgen.gen_freq(rng, int(rng.integers(60, 160)))
     nw = int(rng.integers(5, 41)) if kind == "T" else int(rng.integers(4, 14))
@@ -20,7 +32,7 @@ def gen_fdwra_case(rng, oid, kind):
         azs = sorted(float(a) for a in rng.choice(np.arange(0, 180, 5), naz, replace=False))
         m = Mirror.az(oid, freq, [hvgen.gen_curve_set(rng, freq, nw) for _ in range(naz)], azs)
     par = dict(n=float(rng.choice([0.5, 1.0, 1.5, 2.0, 2.5, 3.0])), maxit=int(rng.choice([1, 2, 3, 50])),
-               dfn=str(rng.choice(hvgen.DISTS)), dmc=str(rng.choice(hvgen.DISTS)),
+               dfn=str(rng.choice(hvgen.DISTS + ["log-normal"])), dmc=str(rng.choice(hvgen.DISTS + ["log-normal"])),
                range=hvgen.gen_range(rng, freq) if rng.random() < 0.4 else (None, None))
     return m, par
 
@@ -60,19 +72,37 @@ def run(ctx):
     n = ctx.budget(160, 2500)
     cases = []
     lines = []
-    for i in range(n):
+    nsc = ctx.budget(500, 6000)
+    for i in range(n + nsc):
         kind = "T" if i % 3 != 2 else "A"
-        m, par = gen_fdwra_case(rng, i + 1, kind)
+        m, par = gen_fdwra_case(rng, i + 1, kind) if i < n else gen_scatter_case(rng, i + 1)
         entry = None
         ret, dbg = run_one(m, par)
         idx = len(lines) + len(m.lines) - 1
         lines += m.lines
-        cases.append((m, par, ret, dbg, idx, m.last_near_tie))
+        cases.append((m, par, ret, dbg, idx, (m.last_near_index if m.last_near_tie else None)))
     outs = run_driver(lines)
     for (m, par, ret, dbg, idx, near) in cases:
-        if near:
+        if near is not None:
+            # a decision of iteration `near` is within rounding distance of its threshold: final masks and count are not
+            # compared, but the statistics of all earlier iterations (which reflect every earlier decision) still are
             ctx.near_tie_skipped += 1
             ctx.count("near_tie_cases")
+            tt = Toks(outs[idx])
+            if m.kind == "T" and tt.tok() == "ok" and near > 0:
+                tt.nat(); hvgen.parse_obj(tt)
+                if tt.tok() == "trace":
+                    nt = tt.nat()
+                    for j in range(min(nt, near)):
+                        vals = [tt.oflt(), tt.oflt(), tt.flt(), tt.oflt(), tt.oflt(), tt.oflt(), tt.oflt(), tt.flt()]
+                        for key, v in zip(TRACE_KEYS, vals):
+                            if key is None or key not in dbg[j] or key.startswith("mc_peak"):
+                                continue
+                            a = dbg[j][key]; a = None if a != a else a
+                            if not close(a, v, float(np.max(m.freq)), 1e-8):
+                                ctx.violation("iteration-statistics", dict(case=case_json(m, par), iteration=j + 1, key=key, impl=a, model=v, before_near_tie_iteration=near + 1),
+                                              seam="DEBUG trace of hvsrpy.window_rejection")
+                    ctx.supporting["trace_iterations_compared_before_near_tie"] = ctx.supporting.get("trace_iterations_compared_before_near_tie", 0) + min(nt, near)
             continue
         t = Toks(outs[idx])
         tag = t.tok()
